@@ -206,3 +206,57 @@ def run_shared(case):
     flags["dict_same_after_two_validations"] = [repr(r.to_dict()) for r in rules] == [repr(r.to_dict()) for r in build(case)]
     res["pure"] = flags
     return res
+
+
+TAG_MODELLED = ["tag_format", "tlpv1_tag", "tlpv2_tag", "tlptag", "duplicate_tag", "namespace_tag"]
+TAG_ALL = TAG_MODELLED + ["cartag", "cvetag", "detection_tag", "stptag"]
+TAG_ISSUES = {"InvalidTagFormatIssue": "TIFormat", "InvalidTLPTagIssue": "TITlp", "DuplicateTagIssue": "TIDup",
+              "InvalidNamespaceTagIssue": "TINamespace"}
+
+
+def _tag_rule(case):
+    return SigmaRule.from_dict({"title": "T", "logsource": {"category": "test"},
+                                "detection": {"sel": {"f": "v"}, "condition": "sel"}, "tags": list(case["tags"])})
+
+
+def _run_tag_validators(names, rule):
+    v = SigmaValidator([BUILTIN[n] for n in names])
+    by_cls = {type(x): x for x in v.validators}
+    v.validators = [by_cls[BUILTIN[n]] for n in names]
+    out = []
+    for i in v.validate_rules([rule]):
+        t = getattr(i, "tag", None)
+        # the tag is recorded as it reads when the run is over (issues hold the rule's own tag objects)
+        out.append([type(i).__name__, t.namespace if t is not None else None, t.name if t is not None else None])
+    return out
+
+
+def run_tags(case):
+    """One rule with tags, tag validators in an explicit order: issues, and the rule's tags afterwards as
+    rule.to_dict() and the tag objects show them; plus all ten network-free tag validators in two orders."""
+    rule = _tag_rule(case)
+    before_dict = repr(rule.to_dict())
+    before_objs = [[t.namespace, t.name] for t in rule.tags]
+    issues = _run_tag_validators(case["vs"], rule)
+    res = {"issues": [[TAG_ISSUES[n], ns, nm] for n, ns, nm in issues if n in TAG_ISSUES],
+           "tags_after": list(rule.to_dict().get("tags", [])),
+           "tags_after_objs": [[t.namespace, t.name] for t in rule.tags]}
+    flags = {"dict_same_after_validation": before_dict == repr(rule.to_dict()),
+             "tag_objects_same_after_validation": before_objs == res["tags_after_objs"]}
+    fresh = _tag_rule(case)
+    try:
+        q0 = repr(TextQueryTestBackend().convert_rule(fresh))
+        q1 = repr(TextQueryTestBackend().convert_rule(rule))
+    except Exception as e:  # noqa
+        q0 = q1 = "EXC"
+    flags["convert_same_after_validation"] = q0 == q1
+    rng = random.Random(case.get("seed", 0))
+    o1 = TAG_ALL[:]
+    rng.shuffle(o1)
+    r1, r2 = _tag_rule(case), _tag_rule(case)
+    m1 = sorted(map(json.dumps, _run_tag_validators(o1, r1)))
+    m2 = sorted(map(json.dumps, _run_tag_validators(o1[::-1], r2)))
+    flags["all_tag_validators_order_independent"] = m1 == m2
+    flags["all_tag_validators_pure"] = repr(r1.to_dict()) == before_dict and repr(r2.to_dict()) == before_dict
+    res["pure"] = flags
+    return res
